@@ -3,6 +3,7 @@
 //! findings plumbing. No real clock or PRNG draw happens in logging paths.
 
 pub mod ddmin;
+pub mod driver;
 pub mod evidence;
 pub mod findings;
 pub mod hashseed;
